@@ -284,6 +284,11 @@ pub fn gen_scenario(run_seed: u64, variant: &str, tier: Tier) -> E2Scenario {
             "c14" => 8,
             _ => 0,
         },
+        // part of the configuration (or all of it) comes from CLI flags
+        flag_overrides_pct: match variant {
+            "c18" | "c18f" | "arte" | "c17" => 15,
+            _ => 0,
+        },
     };
     let project = project::gen_project(&mut rp, &opts);
     let mut tree: BTreeMap<String, String> = project.files().into_iter().collect();
@@ -725,6 +730,7 @@ impl<'a> Runner<'a> {
         }
         a.push("--output-format".into());
         a.push(format.into());
+        a.extend(self.sc.project.flag_args());
         a
     }
     /// fresh tree, one invocation
@@ -1838,6 +1844,27 @@ pub fn execute(sc: &E2Scenario) -> RunReport {
         _ => {}
     }
     sandbox::clear_tree();
+    // reach probes for the layout / input-kind dimensions of the workload
+    {
+        let p = &sc.project;
+        if p.flags.no_config {
+            rep.probe("layout:no_config_file_all_flags");
+        } else if p.flags.schema || p.flags.operation || p.flags.schema_output {
+            rep.probe(if p.flags.decoy { "layout:flags_override_decoy_config" } else { "layout:flags_supply_missing_keys" });
+        }
+        if p.introspection() {
+            rep.probe("schema:introspection_json");
+        }
+        if p.schema.ts_type_directives {
+            rep.probe("schema:ts_type_directives");
+        }
+        if p.config.explicit {
+            rep.probe("layout:explicit_config_flag");
+        }
+        if p.cwd != p.root {
+            rep.probe("layout:cwd_differs_from_config_dir");
+        }
+    }
     // signature: project shape + faults that fired
     let mut sig = rng::fnv(&sc.variant);
     sig = rng::mix(sig, sc.project.ops.len() as u64);
